@@ -252,7 +252,9 @@ Why(d, r) ==
   ELSE LET t == Seq1(r.t)  b == Seq1(r.b)  p == ParseNum(t)  nk == NameKeys(d, t) IN
   IF nk # {} THEN (IF d.kind # "exp" /\ UnsignedKey(d, RawOf(d, b)) \in {SInt(k) : k \in nk} /\ BitClean(d, b) THEN "" ELSE "name")
   ELSE IF ~p.ok THEN "malformed"
-  ELSE IF p.null THEN (IF d.repl # <<>> /\ MsbFirst(d, b) = d.repl THEN "" ELSE "null")
+  \* null text: the replacement pattern; for a type without one it is tolerated only if what was written reads
+  \* back as null again (value lists over such types use an unlisted 0 as "no value")
+  ELSE IF p.null THEN (IF (d.repl # <<>> /\ MsbFirst(d, b) = d.repl) \/ (d.repl = <<>> /\ r.drc = 0 /\ r.dt = <<45>>) THEN "" ELSE "null")
   ELSE IF d.repl # <<>> /\ MsbFirst(d, b) = d.repl THEN "replacement"
   ELSE IF r.drc # 0 \/ r.dt = <<45>> THEN "decode"            \* what was written must decode to a value
   ELSE IF p.huge THEN "range"
@@ -410,6 +412,7 @@ WriteSafeLemmas ==
   /\ Why(BaseOf("D1C"), [rc |-> 0, t |-> <<49, 51, 46, 50>>, b |-> <<25>>, drc |-> 0, dt |-> <<49>>]) = "step"
   /\ WriteSafe(BaseOf("UCH"), [rc |-> 0, t |-> <<45>>, b |-> <<255>>, drc |-> 0, dt |-> <<45>>])
   /\ Why(BaseOf("U1L"), [rc |-> 0, t |-> <<45>>, b |-> <<0>>, drc |-> 0, dt |-> <<48>>]) = "null"
+  /\ WriteSafe(BaseOfLen("BI3", 2), [rc |-> 0, t |-> <<45>>, b |-> <<0>>, drc |-> 0, dt |-> <<45>>])
   /\ WriteSafe(BaseOf("EXP"), [rc |-> 0, t |-> <<49, 46, 53>>, b |-> <<0, 0, 192, 63>>, drc |-> 0, dt |-> <<49>>])   \* 1.5 = 3fc00000
   /\ WriteSafe(BaseOf("EXP"), [rc |-> 0, t |-> <<48, 46, 49>>, b |-> <<205, 204, 204, 61>>, drc |-> 0, dt |-> <<49>>]) \* 0.1 ~ 3dcccccd
   /\ Why(BaseOf("EXP"), [rc |-> 0, t |-> <<48, 46, 49>>, b |-> <<207, 204, 204, 61>>, drc |-> 0, dt |-> <<49>>]) = "step"
